@@ -122,13 +122,15 @@ func goDispatch(pkg string, cmd uint32, res *Result, op string) string {
 }
 
 func runC10(res *Result, d *Driver, g *Rng, tier string) {
-	res.Rule = "every PDU type x every header id it may carry (three SMPP bind flavours) x sequence numbers at 0,1,2^31-1,2^31,2^32-1 and random: GetCommand vs encoded header, GenEmptyResponse type/command/sequence, SetSequenceID vs getter and header offset, dispatcher on the encoded image; dispatchers on every defined id and random ids; non-trivial = distinct (type, header id, sequence) or (dispatcher, id)"
-	nseq := 12
+	res.Rule = "every PDU type x every header id it may carry (three SMPP bind flavours) x sequence numbers at 0,1,2^31-1,2^31,2^32-1, every value that is a command id of some protocol, header sizes, and random: GetCommand vs encoded header, GenEmptyResponse type/command/sequence, SetSequenceID vs getter and header offset, dispatcher on the encoded image; dispatchers on every defined id and random ids; non-trivial = distinct (type, header id, sequence) or (dispatcher, id)"
+	nseq := 36
 	nrand := 2000
 	if tier == "thorough" {
 		nseq, nrand = 400, 100000
 	}
-	seqs := []uint32{0, 1, 0x7fffffff, 0x80000000, 0xffffffff, 0xdeadbeef}
+	// boundary values, and every value that is also a command id somewhere (a header word read at the wrong offset)
+	seqs := []uint32{0, 1, 0x7fffffff, 0x80000000, 0xffffffff, 0xdeadbeef, 2, 3, 4, 5, 6, 7, 8, 9, 0x15,
+		0x80000001, 0x80000002, 0x80000003, 0x80000004, 0x80000005, 0x80000006, 0x80000007, 0x80000008, 0x80000009, 0x80000015, 12, 16, 20}
 	var ops, goOut []string
 	for _, name := range pduNames() {
 		c := registry[name]()
